@@ -66,7 +66,7 @@ def gen_case(rng, idx, tier):
     rounds = []
     for r in range(rng.randint(2, 3)):
         rounds.append({"patterns": scenario.gen_selection(rng, names), "adv_seed": rng.randrange(1 << 30), "adv_steps": rng.randint(0, len(names) + 2)})
-    return {"sched": sched, "dag": dag, "ticks": ticks, "rounds": rounds, "final_seed": rng.randrange(1 << 30), "first_id": rng.choice([0, 0, 1, 12, 123, 1000])}
+    return {"sched": sched, "dag": dag, "ticks": ticks, "rounds": rounds, "final_seed": rng.randrange(1 << 30), "first_id": rng.choice([0, 0, 1, 12, 123, 1000])}  # scheduler job ids (strings); the local lane uses time-based ids
 
 
 def adversary_step(adv, sim, by, res, p_fail=0.25):
@@ -241,7 +241,9 @@ def run_local(case):
             proj.set_file(f, tk)
         mts = [dict(t, wd=proj.root) for t in ts]
         deps, _, _ = model.dependency_relation(mts)
-        state = {"next": case["first_id"], "tasks": {}, "log": []}
+        import time as _time
+
+        state = {"next": int(_time.time() * 1000), "tasks": {}, "log": []}  # like gwf's own pool since b14ff27
         stop = threading.Event()
 
         def serve():
